@@ -284,6 +284,17 @@ func startClusterOnce(o ClusterOpts) (*Cluster, error) {
 	mdir := filepath.Join(c.Dir, "master")
 	args := []string{"-logtostderr=true", "master", "-ip=127.0.0.1", fmt.Sprintf("-port=%d", mp), "-mdir=" + mdir,
 		fmt.Sprintf("-volumeSizeLimitMB=%d", o.VolumeSizeLimitMB), "-defaultReplication=" + o.DefaultReplication}
+	// the master's own periodic vacuum (every 15 minutes, threshold 0.3) would compact volumes at
+	// moments no history models; no volume can reach a garbage ratio of 2, on-demand /vol/vacuum still works
+	hasThreshold := false
+	for _, a := range o.MasterArgs {
+		if strings.HasPrefix(a, "-garbageThreshold") {
+			hasThreshold = true
+		}
+	}
+	if !hasThreshold {
+		args = append(args, "-garbageThreshold=2")
+	}
 	args = append(args, o.MasterArgs...)
 	c.Master, err = startProc("master", mdir, mp, map[string]string{"master.toml": o.MasterToml, "security.toml": o.SecurityToml}, args...)
 	if err != nil {
